@@ -1,5 +1,6 @@
 import TV.Proofs.LockedObject
 import TV.Model.LinCheck
+import TV.Proofs.LinCheck
 /-!
 # C07 — SafeMap and SyncMap are linearizable, type-faithful maps
 
@@ -79,5 +80,19 @@ theorem pinned_C07_history_rejected :
 
 example : TV.LinCheck.linCheck (SafeMap.apply (K := Nat) (V := Nat)) [(1, 7)]
       [⟨1, .getOrAdd 1 5, .val 5, 1, 4⟩, ⟨2, .delete 1, .unit, 2, 3⟩] = true := by decide
+
+/-! ### the decision procedure the driver runs on recorded histories is sound and complete
+
+`linCheck` answers `true` exactly when a linearization exists: a permutation of the recorded operations that is legal for
+the sequential specification and respects real time.  (Completeness needs well-stamped records, `c ≤ e`, which the
+recorder's single atomic counter guarantees; without it `linCheck_complete_needs_wellStamped` is a counterexample.) -/
+theorem C07_lincheck_sound {σ Op Ret : Type} [DecidableEq Ret] (apply : σ → Op → σ × Ret) (s0 : σ) (h : List (TV.LinCheck.Rec Op Ret)) :
+    TV.LinCheck.linCheck apply s0 h = true → ∃ l, TV.LinCheck.IsLinearization apply s0 h l :=
+  TV.LinCheck.linCheck_sound apply s0 h
+
+theorem C07_lincheck_iff {σ Op Ret : Type} [DecidableEq Ret] (apply : σ → Op → σ × Ret) (s0 : σ) (h : List (TV.LinCheck.Rec Op Ret))
+    (hws : ∀ o ∈ h, ¬ (o.e < o.c)) :
+    TV.LinCheck.linCheck apply s0 h = true ↔ ∃ l, TV.LinCheck.IsLinearization apply s0 h l :=
+  TV.LinCheck.linCheck_iff apply s0 h hws
 
 end TV.C07
